@@ -206,7 +206,7 @@ def meta(tier):
         'functions': loader.functions_encoded(fns), 'sig': sig,
         'bounds': 'reshape: sources with numel <= 16 (thorough 24) into ordered factorisations/merges with singleton modes inserted at the front, middle and end, tensors and operators; '
                   'permute: all permutations of orders 2..3, sample for 4 (thorough: all of 4, sample of 5); to_qtt for power-of-2 (and 3) shapes, tensors and square operators; qtt_to_tens on '
-                  'arbitrary symbolic cores; inputs: structurally-orthogonal TT objects with symbolic positive magnitudes (float64, and complex128 with fixed rational unit phases per entry), rank-1 objects with arbitrary sign-free real / arbitrary complex entries around singleton modes; eps symbolic in (0, 0.1] and the default',
+                  'arbitrary symbolic cores; inputs: structurally-orthogonal TT objects with symbolic positive magnitudes (float64, and complex128 with fixed rational unit phases per entry), rank-1 objects with arbitrary sign-free real / arbitrary complex entries around singleton modes; eps symbolic in (0, 0.1] and the default; six two-call histories on one object (permute/permute, permute/reshape, reshape/permute, reshape/reshape)',
         'outside': 'inputs outside the structurally-orthogonal class; the sign/phase freedom of LAPACK QR beyond the modelled representative (positive real diagonal of R; LAPACK-exact for one-row inputs); IEEE rounding',
         'assumptions': ['torch.linalg.qr/svd replaced by the exact models of tv/factor.py (Gram-Schmidt with positive diagonal; structural SVD)', 'symtorch validated per run against real torch',
                         'z3 sat/unsat verdicts; unknown counted inconclusive'],
